@@ -5,8 +5,10 @@ from __future__ import annotations
 
 import sys
 
-if "/repo" not in sys.path:
-    sys.path.insert(0, "/repo")
+import os
+_REPO = os.environ.get("VERIF_REPO", "/repo")
+if _REPO not in sys.path:
+    sys.path.insert(0, _REPO)
 
 from src.core.config_parser import _normalize_config_keys
 from src.linter_config.rule_matcher import _matches_pattern_directly, rule_matches
